@@ -237,7 +237,7 @@ def gen_case(rnd, prop, tier):
             op[2] = {'true': 1.0, 'half': 0.5, 'double': 2.0}[op[2]] * total_true
     conv = prop == 'C13' and warm and rnd.random() < 0.2
     return dict(engine='C', attrs=attrs, sizes=sizes, cliques=cliques, pool=pool, zeros=zeros, metric=metric, warm=warm, elim=elim,
-                ops=ops, conv=conv, truth_seed=rnd.getrandbits(32), total_true=total_true,
+                ops=ops, conv=conv, truth_seed=rnd.getrandbits(32), total_true=total_true, decoy=rnd.random() < 0.3, clone=rnd.choice([None, None, None, 'deepcopy', 'pickle']),
                 syn=dict(rates=rnd.choice([{}, {'nr_lowest': 1.0}, {'many_min': 1.0}, {'nr_first': 0.5, 'many_const': 0.5}]), shuffle=rnd.choice(['random', 'reverse']), seed=rnd.getrandbits(32),
                          method=rnd.choice(['round', 'sample'])))
 
@@ -569,7 +569,16 @@ def run_case(case, prop):
     viol, faults, probes = [], {}, {}
     steps = 0
     pool = materialise(case)
+    if prop == 'C10' and case.get('decoy'):
+        # another estimator on the same domain, configured WITHOUT zeros, is used first in the same process
+        first = [o for o in case['ops'] if o[0] == 'EST']
+        if first:
+            plain = mbi.FactoredInference(mbi.Domain(case['attrs'], case['sizes']), metric=case['metric'], iters=1, warm_start=case['warm'], elim_order=case['elim'])
+            guard_repo(lambda: plain.estimate([pool[i] for i in first[0][1]], first[0][2], engine='MD' if case['metric'] == 'L1' else first[0][3],
+                                              options=dict(first[0][4])), 'estimate')
     eng, zs = make_engine(mbi, case, iters=1000)
+    if prop == 'C10' and case.get('clone'):
+        eng = copy.deepcopy(eng) if case['clone'] == 'deepcopy' else __import__('pickle').loads(__import__('pickle').dumps(eng))     # one private copy per solver / worker
     zs_before = copy.deepcopy(zs)
     returned = []           # (model, snapshot digest, queries, est index)
     _hist_theta[0] = 0.0
